@@ -371,6 +371,13 @@ def run_cfg(ctx, fx):
             continue
         b = ctx.body(fx, fam[0])
         calls = [(bi, t) for bi, t in b.normal_calls() if t.get("callee") == callee]
+        if not calls:
+            # the forwarding call may sit in a private helper shared by the entry points (`self.request(Publish(topic)).await`)
+            import inline
+            ib = inline.body(ctx, fx, fam[0], inline.not_public)
+            icalls = [(bi, t) for bi, t in ib.normal_calls() if t.get("callee") == callee]
+            if icalls:
+                b, calls = ib, icalls
         if not calls and e.startswith("context::Context::<A>::") and callee in ALT:
             # a Context entry point may also go to the registry's broker address itself (what the static wrapper does)
             callee = ALT[callee]
